@@ -154,7 +154,12 @@ def times_of(c):
         ts += [t["lo"], t["hi"]]
         for e in t["es"]:
             ts += e[:-1]
-    return sorted({float(x) for x in ts if x is not None})
+    # distinct by BIT PATTERN: -0.0 and 0.0 are two entries of the numeral table (json.dumps writes `-0.0` and `0.0`); a case on
+    # negative times can hold both (an interval ending at -0.0 next to one starting at 0.0)
+    import math
+    import struct
+    seen = {struct.pack("<d", float(x)): float(x) for x in ts if x is not None}
+    return sorted(seen.values(), key=lambda x: (x, math.copysign(1.0, x)))
 
 
 def encode(c, enc):
@@ -194,7 +199,9 @@ def encode(c, enc):
         return f"u_split {enc.s(c['s'])} {enc.s(c['kw'])}"
     if op == "u_class":
         return f"u_class {enc.s(c['s'])}"
-    if op in ("u_fetchtext", "u_fetchrow"):
+    if op == "u_fetchtext":
+        return f"{op} {enc.s(c['s'])} {c['i']} {enc.b(c.get('strip', True))}"
+    if op == "u_fetchrow":
         return f"{op} {enc.s(c['s'])} {c['i']}"
     raise KeyError(op)
 
@@ -316,7 +323,8 @@ def impl(c):
         # the class test of _parseNormalTextgrid (after fix A22 / df3976c)
         return ("ok", re.search(r'class ?= ?"IntervalTier"', c["s"]) is not None)
     if op == "u_fetchtext":
-        return T.call(lambda: textgrid_io._fetchTextRow(c["s"], c["i"]))
+        # stripText=False is how _parseShortTextgrid reads a tier NAME (fix A31); the default is used for labels
+        return T.call(lambda: textgrid_io._fetchTextRow(c["s"], c["i"], stripText=c.get("strip", True)))
     if op == "u_fetchrow":
         return T.call(lambda: textgrid_io._fetchRow(c["s"], c["i"]))
     raise KeyError(op)
